@@ -355,17 +355,23 @@ class Real(object):
         self.started = True
         self.settle()
 
-    def report_choices(self):
-        """[task, route, item, status] for every report the provider may make now."""
+    def report_choices(self, held=False, canceled=False):
+        """[task, route, item, status] for every report the provider may make now.
+        held: a workflow pause request is outstanding (children are not resumed bottom-up);
+        canceled: cancellation was requested (children do not start a pause cycle)."""
         out = []
         for (t, r, i), st in sorted(self.acts.items()):
             fates = self.d["fates"].get(t, ["s"])
             empty = i < 0 and self.d["tasks"].get(t, {}).get("items", -1) == 0
+            rec = self.c.get_task_state_entry(t, r)
+            rec_done = rec is not None and rec.get("status") in statuses.COMPLETED_STATUSES
             if st == "running":
                 for f in fates:
                     if empty and f != "s":
                         continue
-                    if f == "P" and self.cyc.get((t, r, i)):
+                    if f == "p" and i >= 0:
+                        continue      # pending items of a with-items task are not generated (DESIGN.md 2.2)
+                    if f == "P" and (self.cyc.get((t, r, i)) or canceled):
                         continue
                     out.append([t, r, i, FATE[f]])
             elif st == "pending":
@@ -375,7 +381,11 @@ class Real(object):
             elif st == "pausing":
                 out.append([t, r, i, "paused"])
             elif st == "paused":
-                out.append([t, r, i, "resuming"])
+                # an action of a task execution that has already completed is not resumed any more
+                wf_done = self.c.get_workflow_status() in statuses.COMPLETED_STATUSES
+                if not held and not canceled and not rec_done and not wf_done:
+                    # a with-items item has no row for `resuming`; it goes back to running directly
+                    out.append([t, r, i, "resuming" if i < 0 else "running"])
             elif st == "resuming":
                 out.append([t, r, i, "running"])
             elif st == "canceling":
